@@ -257,17 +257,35 @@ Section Chain.
         apply (CMatch nm m st en gs next) argv w = Ok (Some (match_object m st en gs next)) w) /\
     (forall nm argv w, apply (CUndef nm) argv w = Ok None w).
 
-  (* the evaluator's [call] is such a function as soon as it has two units of fuel *)
-  Lemma call_chain_apply_ok fm pw xl f :
-    chain_apply_ok (fun c a => call fm regex_find pw xl (S (S f)) c None None a).
-  Proof.
-    split; [|split].
-    - intros src s rest w. cbn [call]. unfold bind, need_regex.
-      destruct (regex_find src s) as [ms|]; [|reflexivity]. unfold ret.
-      destruct ms as [|[|[a b] gs] tl]; reflexivity.
-    - reflexivity.
-    - reflexivity.
-  Qed.
+  (* equations of [call] on the regex machinery *)
+  Section CallEq.
+    Variables (fm : f64 -> string) (pw : f64 -> f64 -> option f64)
+              (xl : string -> list carg -> option (lres ovalue)).
+    Lemma call_regex_eq f src s rest nm ctx :
+      call fm regex_find pw xl (S f) (CRegex src) nm ctx (Some (VStr s) :: rest)
+      = (ms <- need_regex regex_find src s ;; call fm regex_find pw xl f (match_chain src s ms) None None []).
+    Proof. reflexivity. Qed.
+    Lemma call_match_eq f nm' m st en gs next nm ctx argv :
+      call fm regex_find pw xl (S f) (CMatch nm' m st en gs next) nm ctx argv
+      = ret (Some (match_object m st en gs next)).
+    Proof. reflexivity. Qed.
+    Lemma call_undef_eq f nm' nm ctx argv :
+      call fm regex_find pw xl (S f) (CUndef nm') nm ctx argv = ret None.
+    Proof. reflexivity. Qed.
+
+    (* the evaluator's [call] is such a function as soon as it has two units of fuel *)
+    Lemma call_chain_apply_ok f :
+      chain_apply_ok (fun c a => call fm regex_find pw xl (S (S f)) c None None a).
+    Proof.
+      split; [|split].
+      - intros src s rest w. rewrite call_regex_eq. unfold bind, need_regex.
+        destruct (regex_find src s) as [ms|]; [|reflexivity]. unfold ret.
+        destruct ms as [|[|[a b] gs] tl]; cbn [match_chain];
+          rewrite ?call_match_eq, ?call_undef_eq; reflexivity.
+      - intros. rewrite call_match_eq. reflexivity.
+      - intros. rewrite call_undef_eq. reflexivity.
+    Qed.
+  End CallEq.
 
   Variable apply : callable -> list ovalue -> M ovalue.
   Hypothesis Happly : chain_apply_ok apply.
@@ -325,7 +343,7 @@ Section Chain.
     pose proof (cmf_chain ms (S fuel) src [] w 0 (-1) ltac:(lia) Hwf Hf) as C.
     cbn [rev app] in C. rewrite <- C.
     destruct Happly as (HR & HM & HU).
-    cbn [call_match_func]. unfold bind at 1 3. rewrite HR, Horacle. reflexivity.
+    cbn [call_match_func]. unfold bind. rewrite HR, Horacle. reflexivity.
   Qed.
 End Chain.
 
